@@ -80,3 +80,26 @@ Definition substring_spec (s : str) (start len : Z) : str :=
     let l := Z.min len (n - (st - 1)) in
     let e := (n - (st - 1))%Z in
     firstn (Z.to_nat l) (skipn (Z.to_nat (e - l)) s).
+
+(* does the string end inside a special character that is never closed?  ([sp = Some k]:
+   inside a special character, [k] braces deep inside it; [d]: brace depth outside) *)
+Fixpoint ends_in_special_go (s : str) (d : nat) (sp : option nat) : bool :=
+  match s with
+  | [] => match sp with None => false | Some _ => true end
+  | c :: t =>
+    match sp with
+    | Some k =>
+      if N.eqb c c_lbrace then ends_in_special_go t d (Some (S k))
+      else if N.eqb c c_rbrace then
+        match k with O => ends_in_special_go t 0 None | S k' => ends_in_special_go t d (Some k') end
+      else ends_in_special_go t d (Some k)
+    | None =>
+      if N.eqb c c_lbrace then
+        if Nat.eqb d 0 && (match t with b :: _ => N.eqb b c_bslash | [] => false end)
+        then ends_in_special_go t 0 (Some 0)
+        else ends_in_special_go t (S d) None
+      else if N.eqb c c_rbrace then ends_in_special_go t (pred d) None
+      else ends_in_special_go t d None
+    end
+  end.
+Definition ends_in_special (s : str) : bool := ends_in_special_go s 0 None.
